@@ -5,18 +5,13 @@ PROPERTY THEOREMS ONLY (model: Martian/Sched.lean, lemmas: Proofs/Sched.lean).
 `s.resets` of every restart-time reset.  All theorems hold for every state
 reachable by any accepted history of any graph.
 
-NOT PROVED (stated here, see report): `exactly_once_at_complete` — "if the
-final state has every node complete|disabled and no crash happened, every
-non-disabled stage fork has exactly one launch per chunk, one join (+ one split
-for splitting stages)".  The *at most once* half is `at_most_once` below; the
-*at least once* half needs the invariant `fork complete ⇒ its join / chunks /
-split objects are complete on disk ⇒ each was submitted`, which the model
-cannot establish as stated because mrp may write `_errors` into any job object
-at any time (kill, heartbeat) — it is monitored on the real histories instead
-(the runner counts `launch` lines per object at completion).
+`exactly_once_at_complete` is proved for FAILURE-FREE histories (the property
+says "in a run without failures"): `FailureFree h` = no `jobend … errors|assert`,
+no `silentfail`, no `W … errors|assert`, no `crash`/`restart`/`reset`.
 -/
 import Martian.Sched
 import Proofs.Sched
+import Proofs.SchedOnce
 
 namespace Props.C03
 open Martian.Sched
@@ -62,7 +57,7 @@ restart and restart-time resets). -/
 theorem finished_fork_stays_finished {g : List NodeInfo} {s : State} {e : Ev} {n f : Nat}
     (hr : Reach g s) (hen : enabled s e = true) (h : fmDone s n f = true) :
     fmDone (apply s e) n f = true :=
-  fmDone_stable (reach_objsInv hr) hen h
+  fmDone_stable (reach_objsInv hr) (reach_full hr) hen h
 
 /-- only objects that exist are run: the fork is in the node's fork list and a
 chunk index is below the number of chunks the split defined -/
@@ -73,7 +68,85 @@ theorem launched_object_exists {s : State} {o : Obj} (hen : enabled s (.launch o
   have := (launchOk_facts (en_launch hen)).1
   simp [hr, Role.isJob] at this
 
+/-- `exactly_once_at_complete`: for EVERY accepted failure-free history and every
+fork `f` of a stage node `n` (at any point of the history, in particular at the end):
+* if the fork is complete then every chunk object the split defined was submitted
+  exactly once and no other chunk index ever; for a splitting stage the split and
+  the join were submitted exactly once each; for a non-splitting stage (split and
+  join are mrp's stubs) never;
+* if the fork is disabled, no job of it was ever submitted.
+(`launchCount s o` = number of entries of object `o` in the submission history.) -/
+theorem exactly_once_at_complete {g : List NodeInfo} {evs : List Ev} {s : State}
+    (hrep : replay (init g) evs = .ok s) (hff : FailureFree evs) (n f : Nat)
+    (hk : s.kind n ≠ .pipeline) :
+    (s.st ⟨n, f, .fork⟩ = some .complete →
+      (∀ i, i < s.nch n f → launchCount s ⟨n, f, .chunk i⟩ = 1) ∧
+      (∀ i, s.nch n f ≤ i → launchCount s ⟨n, f, .chunk i⟩ = 0) ∧
+      (s.kind n = .splitstage →
+        launchCount s ⟨n, f, .split⟩ = 1 ∧ launchCount s ⟨n, f, .join⟩ = 1) ∧
+      (s.kind n = .stage →
+        launchCount s ⟨n, f, .split⟩ = 0 ∧ launchCount s ⟨n, f, .join⟩ = 0)) ∧
+    (s.st ⟨n, f, .fork⟩ = some .disabled → ∀ r, launchCount s ⟨n, f, r⟩ = 0) :=
+  exactly_once_of_inv (reach_objsInv (replay_reach hrep)) (reach_launchInv (replay_reach hrep))
+    (ff_replayFrom Reach.init (ffInv_init g) hff hrep) n f hk
+
+/-- … and when the pipestance is finished (every node Complete or Disabled) the two
+cases above cover every fork of every node: each is complete or disabled. -/
+theorem finished_pipestance_forks {s : State}
+    (hdone : ∀ n, n < s.nodes.length → nodeState s n = .complete ∨ nodeState s n = .disabled)
+    (n f : Nat) (hn : n < s.nodes.length) (hf : f ∈ s.forksOf n) :
+    s.st ⟨n, f, .fork⟩ = some .complete ∨ s.st ⟨n, f, .fork⟩ = some .disabled := by
+  have hd : nodeDone s n = true := by
+    have h := hdone n hn
+    unfold nodeState nodeStateOf at h
+    unfold nodeDone
+    cases hs : scanForks (forkStates s n) true
+    · simp [hs] at h
+    · rfl
+    · rw [hs] at h
+      by_cases hp : (s.pre n).all (nodeDone s) = true <;> simp [hp] at h
+  have := nodeDone_iff.mp hd f hf
+  simpa [fmDone] using this
+
+/-- the completion chain behind it (failure-free): fork complete ⇒ join complete ⇒
+every chunk complete ⇒ (with chunks: a chunk was submitted ⇒) split complete -/
+theorem completion_chain {g : List NodeInfo} {evs : List Ev} {s : State}
+    (hrep : replay (init g) evs = .ok s) (hff : FailureFree evs) (n f : Nat)
+    (hk : s.kind n ≠ .pipeline) (hc : (s.m ⟨n, f, .fork⟩).disk.has .complete = true) :
+    (s.m ⟨n, f, .join⟩).disk.has .complete = true ∧
+    (∀ i, i < s.nch n f → (s.m ⟨n, f, .chunk i⟩).disk.has .complete = true) ∧
+    (s.m ⟨n, f, .split⟩).disk.has .complete = true := by
+  have hinv := ff_replayFrom Reach.init (ffInv_init g) hff hrep
+  have hobj := reach_objsInv (replay_reach hrep)
+  have hj := hinv.c1 n f hk hc
+  obtain ⟨a, b⟩ := hinv.c2 n f (Or.inr hj)
+  refine ⟨hj, a, ?_⟩
+  by_cases hz : s.nch n f = 0
+  · exact b hz
+  · have h0 := (hobj ⟨n, f, .chunk 0⟩).kk rfl (Or.inr (Or.inl (a 0 (by omega))))
+    exact (hobj _).sub _ (hinv.c3 n f 0 h0)
+
 /-! ### non-vacuity -/
+
+/-- a complete failure-free run of one splitting stage with two chunks -/
+def hfull : List Ev :=
+  [.fork 0 0, .nodestate 0 .running, .refresh, .launch ⟨0, 0, .split⟩,
+   .joblog ⟨0, 0, .split⟩, .jobend ⟨0, 0, .split⟩ .complete, .R ⟨0, 0, .split⟩ .complete,
+   .mkchunks 0 0 2, .launch ⟨0, 0, .chunk 0⟩, .launch ⟨0, 0, .chunk 1⟩,
+   .joblog ⟨0, 0, .chunk 1⟩, .jobend ⟨0, 0, .chunk 1⟩ .complete,
+   .joblog ⟨0, 0, .chunk 0⟩, .jobend ⟨0, 0, .chunk 0⟩ .complete,
+   .R ⟨0, 0, .chunk 1⟩ .complete, .R ⟨0, 0, .chunk 0⟩ .complete, .launch ⟨0, 0, .join⟩,
+   .joblog ⟨0, 0, .join⟩, .jobend ⟨0, 0, .join⟩ .complete, .R ⟨0, 0, .join⟩ .complete,
+   .W ⟨0, 0, .fork⟩ .complete, .nodestate 0 .complete]
+
+example : FailureFree hfull := by unfold FailureFree; decide
+
+example : (match replay (init [{ kind := .splitstage, pre := [] }]) hfull with
+    | .ok s => s.st ⟨0, 0, .fork⟩ == some .complete && nodeState s 0 == .complete &&
+        launchCount s ⟨0, 0, .split⟩ == 1 && launchCount s ⟨0, 0, .chunk 1⟩ == 1 &&
+        launchCount s ⟨0, 0, .join⟩ == 1 && launchCount s ⟨0, 0, .chunk 2⟩ == 0
+    | .error _ => false) = true := by decide
+
 
 def g1 : List NodeInfo := [{ kind := .splitstage, pre := [] }]
 
